@@ -99,19 +99,19 @@ def yearly_gains(t, col, upto=None):
 
 
 def later_global_split_near_earlier_split(h, D):
-    """Input feature used by a known-finding signature: a split for all affiliates settling after D lies within a
-    day of a split of the same security settling on or before D."""
-    import datetime
+    """Input feature used by a known-finding signature (name kept for the signature's sake): a split with an explicit
+    affiliate settles after D and is traded within a day of a split of the same security that settles on or before D.
+    (The summary writes the earlier split without an affiliate when only the default affiliate is involved; read
+    back next to the later, explicitly addressed one it is taken for a split for all affiliates and the load-stage
+    guard against duplicate split entries refuses the pair.)"""
     def day(x):
         return datetime.date.fromisoformat(x)
     sp = [r for r in h["rows"] if r["action"] == "Split"]
     for a in sp:
-        if a["sd"] <= D:
+        if a["sd"] <= D or (a.get("af") or "").strip() == "":
             continue
-        if (a.get("af") or "").strip() != "":
-            continue          # not a split for all affiliates
         for b in sp:
-            if b["sd"] <= D and b["sec"] == a["sec"] and abs((day(a["sd"]) - day(b["sd"])).days) <= 1:
+            if b["sd"] <= D and b["sec"] == a["sec"] and abs((day(a["td"]) - day(b["td"])).days) <= 1:
                 return True
     return False
 
